@@ -795,6 +795,14 @@ def main():
         if seen_hp < 9 or rc0 != 0:
             ck.violation("hashtable-at-prime-size:incomplete", "the hash-table probe at prime sizes answered %d sizes (rc=%d)" % (seen_hp, rc0), {"kind": "crash"}, no_input=True)
         ck.cov["hash_table_prime_sizes_probed"] = seen_hp
+        # LPColBase / LPRowBase as values
+        rc1, out1, err1 = vlib.sh([exe, "lpassign"], timeout=120)
+        got = [l.split()[1] for l in out1.splitlines() if l.startswith("LPASSIGN ")]
+        ck.evaluated(("lpassign",), nontrivial=True)
+        if got != ["ok"]:
+            ck.violation("lpcol-lprow-assignment:%s" % (got[0] if got else "no-answer"),
+                         "assigning LPColBase / LPRowBase objects (plain, chained, self) does not give equal objects or does not return: %s" % (got or err1[-200:]),
+                         {"kind": "lpassign", "replay_note": "harness/C19.cpp lpAssign(): run `C19 lpassign`"})
 
     import threading
     minabs = []
